@@ -603,3 +603,50 @@ func VerifC15EveryRun() {
 		vassert(d.F == a && d.G == "static" && d.U == 7, "every run hands the successor the mapped value and the static values")
 	}
 }
+
+// Ill-typed declarations that only involve concrete types are rejected when the workflow is compiled (or at the
+// latest reported as an ordinary error by the run), never a panic: a source path that continues below a field of a
+// basic type, and a static value whose type does not fit the field it is set on.
+func VerifC15StaticChecks() {
+	ctx := context.Background()
+	vcfg("fifo", 1)
+	vcfg("selectfirst", 1)
+	kind := vchoose("kind", 7)
+	wf := NewWorkflow[int, int]()
+	wf.AddLambdaNode("s", InvokableLambda(func(ctx context.Context, in int) (c15Src, error) { return c15Src{A: 1, B: "b"}, nil })).AddInput(START)
+	var got *c15SV
+	t := wf.AddLambdaNode("t", InvokableLambda(func(ctx context.Context, in c15SV) (int, error) { got = &in; return 1, nil }))
+	wellTyped := false
+	switch kind {
+	case 0: // a path below an int field
+		t.AddInput("s", MapFieldPaths(FieldPath{"A", "Z"}, FieldPath{"F"}))
+	case 1: // a path below a string field
+		t.AddInput("s", MapFieldPaths(FieldPath{"B", "Z"}, FieldPath{"G"}))
+	case 2: // target path below an int field
+		t.AddInput("s", MapFieldPaths(FieldPath{"A"}, FieldPath{"F", "Z"}))
+	case 3: // static value of the wrong type for a string field
+		t.AddInput("s", MapFieldPaths(FieldPath{"A"}, FieldPath{"F"})).SetStaticValue(FieldPath{"G"}, 12)
+	case 4: // static value of the wrong type for an int field
+		t.AddInput("s", MapFieldPaths(FieldPath{"A"}, FieldPath{"F"})).SetStaticValue(FieldPath{"U"}, "seven")
+	case 5: // nil static value for an int field
+		t.AddInput("s", MapFieldPaths(FieldPath{"A"}, FieldPath{"F"})).SetStaticValue(FieldPath{"U"}, nil)
+	case 6: // well-typed control
+		t.AddInput("s", MapFieldPaths(FieldPath{"A"}, FieldPath{"F"})).SetStaticValue(FieldPath{"G"}, "g").SetStaticValue(FieldPath{"U"}, 7)
+		wellTyped = true
+	}
+	wf.End().AddInput("t")
+	r, err := wf.Compile(ctx)
+	if wellTyped {
+		vassert(err == nil, "the well-typed workflow compiles")
+	}
+	if err != nil {
+		return // rejected at compile time: what the property asks for
+	}
+	_, rerr := r.Invoke(ctx, 0)
+	if wellTyped {
+		vassert(rerr == nil && got != nil && got.F == 1 && got.G == "g" && got.U == 7, "mapped and static values arrive")
+		return
+	}
+	vassert(rerr != nil, "an ill-typed declaration that compiled must at least fail the run")
+	vassert(!strings.Contains(rerr.Error(), "panic"), "with an ordinary error, not a recovered panic")
+}
